@@ -172,25 +172,28 @@ impl<S: BuildHasher + Clone + 'static> ExpirationMap<S> {
             return Ok(());
         }
 
-        let (old_bucket_num, new_bucket_num) =
-            (storage_bucket(old_exp_time), storage_bucket(new_exp_time));
-
-        if old_bucket_num == new_bucket_num {
-            return Ok(());
-        }
-
         let mut m = self.buckets.write();
 
-        m.remove(&old_bucket_num);
-
-        match m.get_mut(&new_bucket_num) {
-            None => {
-                let mut bucket = Bucket::with_hasher(self.hasher.clone());
-                bucket.map.insert(key, conflict);
-                m.insert(new_bucket_num, bucket);
+        // Take the key (and only the key) out of the bucket it was filed in; an entry
+        // without TTL was never filed.
+        if !old_exp_time.is_zero() {
+            if let Some(bucket) = m.get_mut(&storage_bucket(old_exp_time)) {
+                bucket.remove(&key);
             }
-            Some(bucket) => {
-                bucket.map.insert(key, conflict);
+        }
+
+        // Items that don't expire don't need to be in the expiration map.
+        if !new_exp_time.is_zero() {
+            let new_bucket_num = storage_bucket(new_exp_time);
+            match m.get_mut(&new_bucket_num) {
+                None => {
+                    let mut bucket = Bucket::with_hasher(self.hasher.clone());
+                    bucket.map.insert(key, conflict);
+                    m.insert(new_bucket_num, bucket);
+                }
+                Some(bucket) => {
+                    bucket.map.insert(key, conflict);
+                }
             }
         }
 
